@@ -37,6 +37,9 @@ def step (_ : Unit) (ws : List String) : Unit × String :=
         | some m, some n => toString (decide (m < n))
         | _, _ => "undefined"
       | _, _ => "bad-op"
+  | "rkey-held" :: cs => match cs.mapM parseHex with
+      | some l => toHex (Token.routingKey l)
+      | none => "bad-op"
   | "rkey" :: cs => match cs.mapM parseHex with
       | some l => toHex (Token.routingKey l)
       | none => "bad-op"
